@@ -6,7 +6,7 @@ import json, os, re, subprocess, sys, time, shutil, glob
 prop, target, runs = sys.argv[1], sys.argv[2], int(sys.argv[3])
 seed = int(os.environ.get("VERIF_SEED", "0") or 0)
 base = os.environ.get("VERIF_OUT_DIR", "/verif")
-env = dict(os.environ, CARGO_NET_OFFLINE="true", RUST_BACKTRACE="0")
+env = dict(os.environ, CARGO_NET_OFFLINE="true", RUST_BACKTRACE="0", ASAN_OPTIONS="detect_stack_use_after_return=1:detect_leaks=0")
 t0 = time.time()
 b = subprocess.run(["cargo", "+nightly", "fuzz", "build", target], cwd="/verif/fuzz", env=env, capture_output=True, text=True)
 if b.returncode != 0:
